@@ -12,7 +12,7 @@ import (
 
 func init() { Registry["C09"] = runC09 }
 
-var c09Pieces = []string{"3000", "Level 10", "0", "Hello", "there", "é", "ポケモン", "{PLAYER}", `\n`, `\p`, `\l`, "$", `\0`, "#", "//", "`", "'", "{", "}", "(", ")", ",", ":", "  ", " ", "x", "100%", "a=b", "<>", "!", "&&", "tab\there", `\`, "$$", "€", "@"}
+var c09Pieces = []string{"3000", "Level 10", "0", "Hello", "there", "é", "ポケモン", "{PLAYER}", `\n`, `\p`, `\l`, "$", `\0`, "#", "//", "`", "'", "{", "}", "(", ")", ",", ":", "  ", " ", "x", "100%", "a=b", "<>", "!", "&&", "tab\there", `\`, "$$", "€", "@", "\uFFFD", "Pok\uFFFDmon", "\uFEFF", "\u2028"}
 
 var newlineRunRe = regexp.MustCompile(`[\r\n][ \t\r\n]*`)
 
